@@ -1,6 +1,7 @@
 package rules
 
 import (
+	"go/token"
 	"go/ast"
 	"go/constant"
 	"go/types"
@@ -160,6 +161,56 @@ func runC13(p *eng.Prog, r *eng.Report, tier string) {
 	// ---- C13.6 / C13.7 over the core packages ----------------------------------------------------
 	wrapAliasing(c, "C13.6", []string{"stanza.", "stream."})
 	c.r.Floor("C13.7", "enumeration methods examined", enumExhaustive(c, "C13.7", []string{"stanza", "stream"}), 1)
+	// C13.4 namespace agreement of decoder tags with the encoder's element names
+	nt := tagNamespaceAgreement(c, "C13.4", func(f *eng.Fn) bool {
+		return strings.HasPrefix(f.Short, "stanza.") || strings.HasPrefix(f.Short, "stream.")
+	})
+	r.Note("C13.4: %d decoder tags with an encoder counterpart examined", nt)
+	// C13.2b New{IQ,Message,Presence} look at EVERY attribute of the start
+	// element: no break leaves the attribute loop
+	for _, name := range []string{"NewIQ", "NewMessage", "NewPresence"} {
+		nf := c.fn("C13.2", "stanza", name)
+		if nf == nil {
+			continue
+		}
+		nl := 0
+		ast.Inspect(nf.Body, func(x ast.Node) bool {
+			rs, ok := x.(*ast.RangeStmt)
+			if !ok || !strings.HasSuffix(nf.Norm(rs.X, nil), ".Attr") {
+				return true
+			}
+			nl++
+			bad := ""
+			var walk func(n ast.Node, inner bool)
+			walk = func(n ast.Node, inner bool) {
+				ast.Inspect(n, func(y ast.Node) bool {
+					switch v := y.(type) {
+					case *ast.BranchStmt:
+						if v.Tok == token.BREAK && v.Label == nil && !inner {
+							bad = "break at " + c.p.Pos(v.Pos()) + " ends the attribute loop: the attributes after it are never read"
+						}
+					case *ast.SwitchStmt, *ast.TypeSwitchStmt, *ast.SelectStmt, *ast.ForStmt, *ast.RangeStmt:
+						if y != n {
+							walk(y, true)
+							return false
+						}
+					case *ast.FuncLit:
+						return false
+					}
+					return true
+				})
+			}
+			walk(rs.Body, false)
+			c.r.Check("C13.2", nf, "every attribute is examined", "K: the loop over the start element's attributes is never left early", rs.Pos(), bad == "", bad)
+			return true
+		})
+		c.r.Floor("C13.2", "attribute loops in "+name, nl, 1)
+	}
+	// C13.9 hand-written token loops consume every child element
+	nl := decoderLoopConsumes(c, "C13.9", func(f *eng.Fn) bool {
+		return strings.HasPrefix(f.Short, "stanza.") || strings.HasPrefix(f.Short, "stream.") || strings.HasPrefix(f.Short, "internal/saslerr.")
+	})
+	r.Note("C13.9: %d start-element edges in token loops examined", nl)
 	// C13.8 decoder typestate in the core stanza / stream error decoders
 	decoderSkipTypestate(c, "C13.8", func(f *eng.Fn) bool {
 		return strings.HasPrefix(f.Short, "stanza.") || strings.HasPrefix(f.Short, "stream.") || strings.HasPrefix(f.Short, "internal/saslerr.")
